@@ -142,10 +142,10 @@ def run(chk):
     jobs = []
     for B in ([2, 3, 10, 37] if chk.tier == "quick" else [2, 3, 4, 10, 37, 100, 500]):
         for kind in kinds:
-            for _ in range(1 if chk.tier == "quick" else 6):
+            for _ in range(1 if chk.tier == "quick" else (6 if B < 100 else 3)):
                 jobs.append((rng.randint(0, 2**31), B, kind))
     inj = core.pmap(inject_job, jobs)
-    exprs, idx = [], []
+    exprs, idx, big, big_idx = [], [], [], []
     for o in inj:
         seed, B, kind = o["job"]
         alphas = sorted(float(a) for a in o["unit"])
@@ -154,6 +154,7 @@ def run(chk):
         for i in range(len(o["preds"])):
             prev = None
             prev_a = None
+            triples = []
             for a in alphas:
                 lo, hi = o["unit"][a][0][i], o["unit"][a][1][i]
                 if not (lo <= hi):
@@ -168,13 +169,19 @@ def run(chk):
                 if whole(lo) is None or whole(hi) is None:
                     chk.violation(f"unit bound {lo}/{hi} is not a whole number", replay, {"kind": "non-whole"})
                     continue
-                exprs.append(f"check_unit_interval {qlit(a)} {zlit(B)} {qlit(p)} {llit([qlit(x) for x in o['diff'][i]])} {zlit(int(lo))} {zlit(int(hi))}")
-                idx.append((o, i, a))
-    res, errs = core.coq_eval("C06", IMPORTS, exprs, shard=150, tag="inj")
-    for (o, i, a), v in zip(idx, res):
-        if v != "true":
-            chk.violation(f"unit bounds at level {a} for draws row {i} (B={o['job'][1]}, {o['job'][2]}) differ from rhe(pred - quantile_lin)",
-                          {"kind": "inject", "job": o["job"], "row": i, "alpha": a, "correspondence": "coq/Model/Ranks.v check_unit_interval"}, {"kind": "model-diff"}, no_input=True)
+                triples.append(f"({qlit(a)}, {zlit(int(lo))}, {zlit(int(hi))})")
+            e = f"check_unit_intervals {zlit(B)} {qlit(o['preds'][i])} {llit([qlit(x) for x in o['diff'][i]])} {llit(triples)}"
+            (big if B >= 100 else exprs).append(e)
+            (big_idx if B >= 100 else idx).append((o, i))
+    res, errs = core.coq_eval("C06", IMPORTS, exprs, shard=60, tag="inj")
+    res2, errs2 = core.coq_eval("C06", IMPORTS, big, shard=4, timeout=900, tag="injbig") if big else ([], [])
+    for (o, i), v in zip(idx + big_idx, list(res) + list(res2)):
+        rp = {"kind": "inject", "job": o["job"], "row": i, "correspondence": "coq/Model/Ranks.v check_unit_intervals"}
+        if v is None:
+            chk.violation(f"correspondence case did not evaluate (draws row {i}, B={o['job'][1]}, {o['job'][2]})", dict(rp, errors=(errs + errs2)[:1]), {"kind": "coq-eval"}, no_input=True)
+        elif v != "true":
+            chk.violation(f"unit bounds for draws row {i} (B={o['job'][1]}, {o['job'][2]}) differ from rhe(pred - quantile_lin) at some level",
+                          rp, {"kind": "model-diff"}, no_input=True)
     # (iii) API runs
     n = 12 if chk.tier == "quick" else 200
     ajobs = []
